@@ -89,6 +89,66 @@ theorem edges_once (F : List Face) (h : StructSpec.ClosedOriented F) :
 theorem num_edges_half_corners (F : List Face) (h : StructSpec.ClosedOriented F) :
     2 * numEdges F = (F.map List.length).sum := (edges_once F h).2.2.2.2
 
+/-- `cube.faces` of the docstring example and a scrambled version (as in the non-vacuity section) -/
+def cubeFacesPre : List Face :=
+  [[0, 2, 6, 4], [0, 4, 5, 1], [4, 6, 7, 5], [0, 1, 3, 2], [2, 3, 7, 6], [1, 5, 7, 3]]
+def cubeScrambledPre : List Face :=
+  [[0, 2, 6, 4], [1, 5, 4, 0], [4, 6, 7, 5], [2, 3, 1, 0], [6, 7, 3, 2], [3, 7, 5, 1]]
+
+/-! ### the cached `edges` never goes stale -/
+
+/-- the cache is absent or holds the edges of the CURRENT faces -/
+def Struct.EdgeCache.Coherent (s : EdgeCache) : Prop := s.cache = none ∨ s.cache = some (edges s.faces)
+
+theorem Struct.EdgeCache.step_coherent (s : EdgeCache) (h : s.Coherent) (op : EdgeOp) : (s.step op).Coherent := by
+  cases op with
+  | read =>
+    unfold EdgeCache.step EdgeCache.readEdges
+    rcases hc : s.cache with _ | e
+    · exact Or.inr rfl
+    · simp only
+      rcases h with h | h
+      · rw [hc] at h; cases h
+      · exact Or.inr h
+  | setFaces F => exact Or.inl rfl
+
+/-- **C07 cache invalidation (all histories).** Start from a freshly constructed `Polyhedron` and
+apply ANY sequence of reads of the edge observables and of `sort_faces` / `merge_faces` calls (each
+of which ends by dropping the cache entry, as the code does). Then a read of `edges` returns
+`edges(faces_now)` — never the edge list of an earlier face list; in particular after `sort_faces`
+the cached edges, if any, are those of the sorted faces, no matter what was read before. -/
+theorem edges_cache_coherent (F0 : List Face) (ops : List EdgeOp) :
+    ((EdgeCache.init F0).run ops).Coherent ∧
+    ((EdgeCache.init F0).run ops).readEdges.1 = edges ((EdgeCache.init F0).run ops).faces := by
+  have hinv : ∀ (ops : List EdgeOp) (s : EdgeCache), s.Coherent → (s.run ops).Coherent := by
+    intro ops
+    induction ops with
+    | nil => intro s h; exact h
+    | cons op ops ih =>
+      intro s h
+      exact ih _ (EdgeCache.step_coherent s h op)
+  have h := hinv ops (EdgeCache.init F0) (Or.inl rfl)
+  refine ⟨h, ?_⟩
+  unfold EdgeCache.readEdges
+  rcases hc : ((EdgeCache.init F0).run ops).cache with _ | e
+  · rfl
+  · rcases h with h | h
+    · rw [hc] at h; cases h
+    · rw [hc] at h; simp only; exact Option.some.inj h
+
+/-- the history of the seeded change r2-C07-2: read the edges of the shuffled faces, sort, read again
+— the second read sees the edges of the sorted faces -/
+example : ((EdgeCache.init cubeScrambledPre).run [.read, .setFaces cubeFacesPre, .read]).readEdges.1
+    = edges cubeFacesPre := (edges_cache_coherent cubeScrambledPre [.read, .setFaces cubeFacesPre, .read]).2
+
+/-- a state machine that does NOT drop the cache in `sort_faces` (the defect repaired for C03, and
+the seeded change r2-C07-2) violates coherence: read, then replace the faces keeping the cache -/
+theorem stale_cache_fails :
+    ¬ (EdgeCache.Coherent ⟨[[0, 1, 2], [0, 2, 3], [0, 3, 1], [1, 3, 2]],
+        ((EdgeCache.init [[0, 2, 1], [0, 2, 3], [0, 3, 1], [1, 3, 2]]).step .read).cache⟩) := by
+  unfold EdgeCache.Coherent
+  decide
+
 /-! ### neighbours -/
 
 /-- **C07 neighbours.** When `_find_neighbors` succeeds (no `AssertionError`), `j` is listed as a
